@@ -49,10 +49,12 @@ def _spec(draw, tier):
 
 
 def strategy(tier):
-    return _spec(tier)
+    return gens.with_pre(_spec(tier))
 
 
 def check(spec, stats):
+    if sim.set_pre(spec):
+        stats.label("pre_elaborated")
     csr_dw, wb_dw = spec["csr_dw"], spec["wb_dw"]
     eff_wb = csr_dw if wb_dw is None else wb_dw
     ratio = eff_wb // csr_dw if eff_wb % csr_dw == 0 else 0
